@@ -181,13 +181,32 @@ def row_class():
 
 
 def slice_length_fn():
-    """`typeutils.slice_length`, or (renamed / moved) the number of elements vector slicing selects"""
+    """`typeutils.slice_length`, or (renamed / moved) the module-level function of the library that behaves like it on a handful
+    of probes; as a last resort the number of elements vector slicing selects (small n only)"""
     try:
         from serif.typeutils import slice_length
         return slice_length
     except ImportError:
-        from serif import Vector
+        pass
+    import importlib
+    probes = [((slice(0, 7, 5), 10), 2), ((slice(None), 3), 3), ((slice(None, None, -1), 4), 4), ((slice(5, 1, -2), 9), 2),
+              ((slice(2, 2), 5), 0), ((slice(-3, None), 10), 3), ((slice(0, 10 ** 12, 7), 10 ** 12), (10 ** 12 + 6) // 7)]
+    for mod in ("serif.typeutils", "serif.vector", "serif.table", "serif.typing"):
+        try:
+            m = importlib.import_module(mod)
+        except Exception:
+            continue
+        for name, f in list(vars(m).items()):
+            if callable(f) and not isinstance(f, type) and getattr(f, "__module__", None) == m.__name__:
+                try:
+                    if all(f(*a) == want for a, want in probes):
+                        return f
+                except Exception:
+                    continue
+    from serif import Vector
 
-        def slice_length(sl, n):
-            return len(Vector(list(range(n)))[sl] if n else Vector([0])[1:][sl])
-        return slice_length
+    def slice_length(sl, n):
+        if n > 10 ** 5:
+            return len(range(*sl.indices(n)))          # out of reach of the behavioural route: CPython's own answer
+        return len(Vector(list(range(n)))[sl] if n else Vector([0])[1:][sl])
+    return slice_length
